@@ -10,6 +10,7 @@ from __future__ import annotations
 import hashlib
 import io
 import threading
+import traceback
 import warnings
 
 from hypothesis import strategies as st
@@ -760,7 +761,7 @@ def run_decoders(ctx, n):
 # ------------------------------------------------------------------------------------------
 # part f: a long-lived server; associations that fail, in every way an association can fail, one after the other
 
-FAILURES = ('bad-userinfo', 'abort-at-once', 'handler-boom', 'refused', 'garbage-message', 'no-context')
+FAILURES = ('bad-userinfo', 'no-userinfo', 'abort-at-once', 'handler-boom', 'refused', 'wrong-message', 'no-context')
 
 
 def failing_plan(kind):
@@ -770,11 +771,15 @@ def failing_plan(kind):
     def plan(dul):
         if kind == 'bad-userinfo':
             # legal (PS3.8 does not order the sub-items), but unusual: Maximum Length does not come first
-            spec = dict(rq, items=[dict(it, subs=[{'t': 0x52, 'r': 0, 'name': '1.2.3.4'}] + list(it['subs']))
+            spec = dict(rq, items=[dict(it, subs=[{'t': 0x52, 'r': 0, 'uid': '1.2.3.4'}] + list(it['subs']))
                                    if it['t'] == 0x50 else it for it in rq['items']])
             dul.push_pdu(spec)
             dul.push_msg(*echo)
             dul.push_pdu({'t': 5, 'r1': 0, 'r2': 0})
+        elif kind == 'no-userinfo':
+            # not a valid request: the User Information item is missing altogether
+            dul.push_pdu(dict(rq, items=[it for it in rq['items'] if it['t'] != 0x50]))
+            dul.push_pdu({'t': 7, 'r1': 0, 'r2': 0, 'r3': 0, 'source': 0, 'reason': 0})
         elif kind == 'no-context':
             dul.push_pdu(fd.rq_spec([(1, '1.2.3.4.5.6.7', [svc.IMPLICIT])], 16384))
             dul.push_pdu({'t': 7, 'r1': 0, 'r2': 0, 'r3': 0, 'source': 0, 'reason': 0})
@@ -782,8 +787,9 @@ def failing_plan(kind):
             dul.push_pdu(rq)
             if kind == 'abort-at-once':
                 dul.push_pdu({'t': 7, 'r1': 0, 'r2': 0, 'r3': 0, 'source': 2, 'reason': 1})
-            elif kind == 'garbage-message':
-                dul.push_msg({0x0002: svc.VERIFICATION, 0x0100: 0x7777, 0x0110: 5}, None, 1)
+            elif kind == 'wrong-message':
+                # a C-STORE-RQ on the verification context: no service of the entity can take it
+                dul.push_msg({0x0002: svc.VERIFICATION, 0x0100: 0x0001, 0x0110: 5, 0x0700: 0, 0x1000: '1.2.3'}, b'\x08\x00\x18\x00\x02\x00\x00\x001\x00', 1)
             else:
                 dul.push_msg(*echo)
                 dul.push_pdu({'t': 5, 'r1': 0, 'r2': 0})
@@ -810,10 +816,10 @@ def long_lived_server(program):
         for kind, count in program:
             for _ in range(count):
                 cur['kind'] = kind
-                try:
-                    fd.run_acceptor(ae, [failing_plan(kind)])
-                except BaseException:       # noqa - the failing association may end however it ends
-                    pass
+                # (run_acceptor hands back whatever the failing association ended with; how it ends is not judged here)
+                acc, fac, exc = fd.run_acceptor(ae, [failing_plan(kind)])
+                if isinstance(exc, (KeyError, TypeError)) and 'vf/' in ''.join(traceback.format_tb(exc.__traceback__)[-1:]):
+                    raise HarnessError('scripted plan %s failed in the harness: %r' % (kind, exc))
                 done += 1
             cur['kind'] = None
             acc, fac, exc = fd.run_acceptor(ae, [svc.primary_plan([(1, svc.VERIFICATION)], [
@@ -885,7 +891,7 @@ def run(ctx):
                 'generator) against one server entity over loopback TCP, R rounds with permuted start order; part b: '
                 '2-4 AssociationAcceptor.handle() bodies plus 0-2 associations the same entity requests itself, sharing one AE on scripted providers, interleaved at every '
                 'provider send/receive and inside every application handler by a baton scheduler whose order is Hypothesis-drawn, each compared with the '
-                'same association run alone; _new_msg_id() from concurrent threads; part c: PDU encode/decode, message fragmentation (bytes and file-like), group-length computation and status classification run in 8 threads under a 1 microsecond switch interval and must equal the single-threaded results; part d: one requesting entity with 2-4 associations open at the same time on scripted peers answering with Hypothesis-drawn result codes 0-4: each association proposes all configured classes and uses exactly what its own peer accepted; part e: 2-4 reassemblers (one per association) fed the fragmented messages of their associations in a drawn interleaving, each compared with being fed alone; part f: one long-lived entity on which 300 associations in a row fail in each of 6 ways (unusual sub-item order, abort during negotiation, handler exception, refusal, undecodable message, no acceptable context), an ordinary association after each run must be served; non-trivial = >=2 associations '
+                'same association run alone; _new_msg_id() from concurrent threads; part c: PDU encode/decode, message fragmentation (bytes and file-like), group-length computation and status classification run in 8 threads under a 1 microsecond switch interval and must equal the single-threaded results; part d: one requesting entity with 2-4 associations open at the same time on scripted peers answering with Hypothesis-drawn result codes 0-4: each association proposes all configured classes and uses exactly what its own peer accepted; part e: 2-4 reassemblers (one per association) fed the fragmented messages of their associations in a drawn interleaving, each compared with being fed alone; part f: one long-lived entity on which 300 associations in a row fail in each of 7 ways (unusual sub-item order, request without user information, abort during negotiation, handler exception, refusal, a message no service can take, no acceptable context), an ordinary association after each run must be served; non-trivial = >=2 associations '
                 'overlapping (>=2 baton switches / >=2 clients)')
     ctx.assumptions = ['part a samples OS schedules; part b enumerates interleavings at primitive granularity only',
                        'server-side calls are attributed to associations through the handler thread (one thread per association)',
